@@ -29,10 +29,15 @@ WORDS = ["CREATE", "table", "not null", "--", "select", "Primary Key", "''", "x"
 BAD_FEATURES = {
     "comma": [", ", ",", " ,"], "lpar": ["(", " (", "( ", "f(x", "(1"], "rpar": [")", " )", ")x", "1)", ":-)", ") "], "eq": ["=", "a=b", " = "], "tab": ["\t"],
     "nonascii": ["ï", "é", "日本", "ß", "Ж"], "blockopen": ["/*"], "blockclose": ["*/"],
+    # one backslash-escaped quote inside the literal (the script then holds an odd number of quote characters)
+    "escquote": ["\\'"],
 }
 KF_OF = {"comma": "C07:separator-respaced-in-literal", "lpar": "C07:separator-respaced-in-literal", "rpar": "C07:separator-respaced-in-literal",
          "eq": "C07:separator-respaced-in-literal", "tab": "C07:separator-respaced-in-literal", "nonascii": "C07:non-ascii-escaped",
-         "blockopen": "C07:block-comment-marker-in-literal", "blockclose": "C07:block-comment-marker-in-literal"}
+         "blockopen": "C07:block-comment-marker-in-literal", "blockclose": "C07:block-comment-marker-in-literal",
+         "escquote": "C07:escaped-quote-placeholder-leaks"}
+# positions whose values go through check_spec(): there an escaped quote and a TAB-only literal come back verbatim (any deviation is a violation)
+RESTORING_POSITIONS = {"colcomment", "tabcomment_hql"}
 
 
 def _get(r, *path):
@@ -135,6 +140,9 @@ def explained(feat, lit, got, ddl=None):
         except Exception:
             return False
         return squash(got) == squash(esc)
+    if feat == "escquote":
+        # the pre-processor swaps \' for the placeholder pars_m_single, which only column / hql table COMMENT translate back
+        return isinstance(got, str) and got == lit.replace("\\'", "\\pars_m_single")
     if feat in ("blockopen", "blockclose"):
         return True   # statement lost or DDLParserError (quote left unpaired by comment splitting)
     return False
@@ -177,7 +185,9 @@ def check_case(ctx, case):
         return
     if got != exp or type(got) is not type(exp):
         k = None
-        if feat and explained(feat, exp, got, ddl):
+        if feat == "escquote" and pos in RESTORING_POSITIONS:
+            pass          # must be verbatim here
+        elif feat and explained(feat, exp, got, ddl):
             k = kfkey
         elif feat == "eq" and pos == "tblprop" and isinstance(got, str) and squash(got) == squash(lit.split("=")[-1]):
             k = "C07:equals-in-tblproperties-value"
